@@ -224,7 +224,7 @@ def write_evidence(prop, tier, seed, mod, records, keys, states, wall, n_violati
 			samples.append(dict(run=r['run'], digest=r['digest'], summary=r.get('sample'), event_log=ev))
 	if not samples:
 		samples = [dict(run=r['run'], digest=r['digest'], summary=r.get('sample')) for r in records[:3]]
-	evaluations = int(stats.get('executions', 0)) or len(records)
+	evaluations = int(stats.get(getattr(mod, 'EVAL_COUNTER', 'executions'), 0)) or len(records)
 	cov = dict(
 		evaluations=evaluations,
 		distinct_nontrivial=len(keys),
